@@ -53,8 +53,10 @@ def goq(s):
 
 
 class Gen:
-    def __init__(self, rng, ntemplates=None, features=None, maxdepth=3, strings=None, prefix=""):
+    def __init__(self, rng, ntemplates=None, features=None, maxdepth=3, strings=None, prefix="", no_raw=False, only=None):
         self.rng = rng
+        self.no_raw = no_raw
+        self.only = only
         self.prefix = prefix
         self.maxdepth = maxdepth
         self.features = features  # None = everything
@@ -131,7 +133,7 @@ class Gen:
                     if r.random() < 0.5:
                         out.append(("i", self.int_expr(), "%d"))
                     else:
-                        out.append(("i", self.str_expr_simple(), r.choice(["%s", "%q", "%v", "%5s"])))
+                        out.append(("i", self.str_expr_simple(), r.choice(["%s", "%v"] if self.no_raw else ["%s", "%q", "%v", "%5s"])))
                 else:
                     out.append(("i", self.str_expr(), None))
             elif allow_interp and allow_escape and c < 0.42:
@@ -161,6 +163,8 @@ class Gen:
             ctx["seen_doctype"] = True
             return ("doctype",)
         k = r.choice(kinds)
+        if self.no_raw and k in ("utext", "uscript"):
+            k = "script"
         if depth >= self.maxdepth and k in ("if", "for", "switch", "render"):
             k = "el"
         return getattr(self, "n_" + k)(depth, ctx)
@@ -186,7 +190,7 @@ class Gen:
         if r.random() < 0.25:
             if r.random() < 0.5:
                 return ("script", self.int_expr(), "%d")
-            return ("script", self.str_expr_simple(), r.choice(["%s", "%q", "%v"]))
+            return ("script", self.str_expr_simple(), r.choice(["%s", "%v"] if self.no_raw else ["%s", "%q", "%v"]))
         return ("script", self.str_expr(), None)
 
     def n_uscript(self, depth, ctx):
@@ -210,6 +214,8 @@ class Gen:
     def n_filter(self, depth, ctx):
         r = self.rng
         kind = r.choice(["plain", "escaped", "preserve", "javascript", "css"])
+        if self.no_raw and kind in ("plain", "preserve"):
+            kind = "escaped"
         lines = []
         for _ in range(r.randint(1, 3)):
             if kind in ("javascript", "css"):
@@ -314,7 +320,8 @@ class Gen:
                 e["attrs_cmd"] = r.choice([["E.M"], ["E.MB"], ["E.M", "E.MB"]])
         if self.has("objref") and r.random() < 0.08:
             e["objref"] = r.randint(0, 2)
-        if r.random() < 0.12:
+        if r.random() < 0.12 and not self.no_raw:
+            # (the tokenizer comparison of C02 runs without marks: white space from a value next to a mark is removed by design)
             e["marks"] = r.choice([">", "<", "><", "<>"])
         k = r.random()
         if e["tag"] in ("br", "hr", "img") or (k < 0.08):
@@ -336,12 +343,12 @@ class Gen:
                     content[1][0] = ("s", "t " + p0[1])
             elif c < 0.8:
                 content = self.n_script(depth, ctx)
-            elif c < 0.9 and not e["marks"]:
+            elif c < 0.9 and not e["marks"] and not self.no_raw:
                 # (after a whitespace-removal mark only `=`, `/` or text may follow)
                 content = self.n_uscript(depth, ctx)
             elif c < 0.9:
                 content = self.n_script(depth, ctx)
-            elif e["marks"]:
+            elif e["marks"] or self.no_raw:
                 content = ("text", [("s", "marked")])
             else:
                 content = ("utext", self.pieces(first_static=False))
